@@ -100,3 +100,15 @@ package clickhouse_transpiler
 //@ func (ComplexOrPlanner).Process [C11]
 //@   flag checks=-index,-assert
 //@   at sql_select.NewOrderBy most-recent-first: arg1 == sql.ORDER_BY_DIRECTION_DESC
+
+// A TraceQL regex reaches ClickHouse as one escaped string literal, untouched after
+// the escaping: match(<field>,'<escaped regex>'). Likewise the attribute name of an
+// aggregated attribute.
+//@ func (matchRe).String [C10]
+//@   flag checks=-index,-assert
+//@   modifies nothing
+//@   check regex-is-one-escaped-literal: result1 == nil ==> result0 == "match(" + field + "," + ("'" + sqlEsc(m.re) + "'") + ")"
+//@ func (*sqlAttrValue).String [C10]
+//@   flag checks=-index,-assert
+//@   modifies nothing
+//@   check attribute-name-is-one-escaped-literal: result1 == nil ==> result0 == "anyIf(toFloat64OrNull(val), key == " + ("'" + sqlEsc(s.attr) + "'") + ")"
